@@ -142,6 +142,10 @@ func (e *Engine) zero(t types.Type) Value {
 		if u.Kind() == types.UntypedNil {
 			return nilPtr
 		}
+		if u.Kind() == types.Invalid {
+			// the unused component of a map iteration (for k := range m)
+			return e.TT.Const(8, 0)
+		}
 	case *types.Pointer:
 		return nilPtr
 	case *types.Slice:
